@@ -79,6 +79,13 @@ type ASlice struct {
 	Sym    string
 }
 
+// ConstBV is the abstract constant u of width w.
+func ConstBV(u uint64, w int, signed bool) BV {
+	b := constBV(u, w)
+	b.Signed = signed
+	return b
+}
+
 func constBV(u uint64, w int) BV {
 	var b BV
 	b.W = w
@@ -519,8 +526,11 @@ func typeWidth(t types.Type) (int, bool, bool) {
 
 // Interp interprets SSA functions over abstract values.
 type Interp struct {
-	P       *Prog
-	Assume  []Atom // branch atoms assumed to hold on the explored path
+	P      *Prog
+	Assume []Atom // branch atoms assumed to hold on the explored path
+	// Hooks replace calls of the named callees (FnName form) by an abstract
+	// model, e.g. a byte tape standing for an external stream.
+	Hooks map[string]func(args []AVal) (AVal, error)
 	Steps   int
 	Trace   []string
 	MaxCall int
@@ -705,6 +715,11 @@ func zeroOf(t types.Type, name string) AVal {
 		o := &AObj{Name: name, Cells: map[int]AVal{}, N: u.NumFields()}
 		o.Zero = func(i int) AVal { return zeroOf(u.Field(i).Type(), name+"."+u.Field(i).Name()) }
 		return o
+	case *types.Slice:
+		elem := u.Elem()
+		o := &AObj{Name: name, Cells: map[int]AVal{}, N: 0}
+		o.Zero = func(int) AVal { return zeroOf(elem, name+"[]") }
+		return &ASlice{Obj: o, Lo: 0, Hi: 0}
 	}
 	return AOpaque{"zero"}
 }
@@ -907,6 +922,14 @@ func (it *Interp) binop(fr *frame, x *ssa.BinOp) AVal {
 	w, signed, wok := typeWidth(x.Type())
 	switch x.Op {
 	case token.EQL, token.NEQ, token.LSS, token.LEQ, token.GTR, token.GEQ:
+		if !aok && !bok && (x.Op == token.EQL || x.Op == token.NEQ) {
+			// nil == nil for the abstract nil value (errors returned by hooks)
+			oa, isA := it.val(fr, x.X).(AOpaque)
+			ob, isB := it.val(fr, x.Y).(AOpaque)
+			if isA && isB && oa.Name == "nil" && ob.Name == "nil" {
+				return boolBV(x.Op == token.EQL)
+			}
+		}
 		if aok && bok {
 			if r, ok := cmpBV(x.Op, a, b); ok {
 				return boolBV(r)
@@ -1102,8 +1125,13 @@ func (it *Interp) callInstr(fr *frame, x *ssa.Call, depth int) (AVal, error) {
 		}
 		return ATop{"builtin " + b.Name()}, nil
 	}
-	if callee := cc.StaticCallee(); callee != nil && callee.Blocks != nil {
-		return it.call(callee, args, depth+1)
+	if callee := cc.StaticCallee(); callee != nil {
+		if h, ok := it.Hooks[FnName(callee)]; ok {
+			return h(args)
+		}
+		if callee.Blocks != nil {
+			return it.call(callee, args, depth+1)
+		}
 	}
 	return ATop{"call of unknown function"}, nil
 }
